@@ -21,16 +21,29 @@ type Parsed struct {
 	Out  string // text written to the output writer during parse (disasm/stats only)
 }
 
+// Scribble overwrites a buffer that was handed to the library as input: the caller owns it again once the
+// call has returned (a read buffer is reused for the next input), so nothing the call returned may still
+// point into it. Every wrapper below does this before its results are looked at.
+func Scribble(b []byte) {
+	for i := range b {
+		b[i] = '#'
+	}
+}
+
 func Parse(src string, opts ...bcl.Option) Parsed {
 	var out, log bytes.Buffer
 	o := append([]bcl.Option{bcl.OptOutput(&out), bcl.OptLogger(&log)}, opts...)
-	p, err := bcl.Parse([]byte(src), "input", o...)
+	in := []byte(src)
+	p, err := bcl.Parse(in, "input", o...)
+	Scribble(in)
 	return Parsed{p, err, log.String(), out.String()}
 }
 
 func ParseNamed(src, name string) Parsed {
 	var out, log bytes.Buffer
-	p, err := bcl.Parse([]byte(src), name, bcl.OptOutput(&out), bcl.OptLogger(&log))
+	in := []byte(src)
+	p, err := bcl.Parse(in, name, bcl.OptOutput(&out), bcl.OptLogger(&log))
+	Scribble(in)
 	return Parsed{p, err, log.String(), out.String()}
 }
 
@@ -61,7 +74,9 @@ func (r Ran) ErrText() string {
 func Interpret(src string, opts ...bcl.Option) Ran {
 	var out, log bytes.Buffer
 	o := append([]bcl.Option{bcl.OptOutput(&out), bcl.OptLogger(&log)}, opts...)
-	bl, bi, err := bcl.Interpret([]byte(src), o...)
+	in := []byte(src)
+	bl, bi, err := bcl.Interpret(in, o...)
+	Scribble(in)
 	return Ran{bl, bi, err, out.String(), log.String()}
 }
 
@@ -155,3 +170,11 @@ func (r Ran) Summary() string {
 }
 
 func mathBits(f float64) uint64 { return math.Float64bits(f) }
+
+// Unmarshal calls bcl.Unmarshal on a private copy of src and overwrites that copy afterwards (see Scribble).
+func Unmarshal(src string, target any, opts ...bcl.Option) error {
+	in := []byte(src)
+	err := bcl.Unmarshal(in, target, opts...)
+	Scribble(in)
+	return err
+}
